@@ -389,6 +389,16 @@ impl Minifier
 			}
 			self.minified_program += &self.minified_line;
 		}
+		// a deleted line at the end has no following line to take over its references, so keep it
+		let mut kept: Vec<usize> = Vec::new();
+		while self.deleted_lines.len() > 0 && self.deleted_lines.last() == self.all_lines.last() {
+			kept.push(self.deleted_lines.pop().unwrap());
+			self.all_lines.pop();
+		}
+		for num in kept.iter().rev() {
+			self.minified_program += &format!("{}REM\n",num);
+			self.all_lines.push(*num);
+		}
 
 		Ok(self.minified_program.clone())
 	}
